@@ -34,7 +34,7 @@ SPEC = {
         "message fields are within the ranges of their Rust types and in a representable combination (valid predicates of Model/NetMsg.lean)",
         "opaque AnyCbor payloads are exactly one well-formed item whose text strings are UTF-8 (Decoder::skip, on which AnyCbor::decode "
         "relies, is proved exact on every such item, indefinite containers included, and rejects non-UTF-8 text)",
-        "text fields are valid UTF-8 (Rust String); tx-monitor ResponseNextTx(None) is decoded from a buffer that ends with the message",
+        "text fields are valid UTF-8 (Rust String)",
     ],
     "explanation": "WF + RT + declared lengths are Lean theorems over all message values (Props/C22.lean); the stream ties the model "
                    "to the code and additionally pushes the 211 reject reasons recorded in the repo's tests through the real "
